@@ -7,6 +7,7 @@ import (
 	"errors"
 	"fmt"
 	"io"
+	"math"
 	"os"
 	"runtime/debug"
 	"slices"
@@ -89,6 +90,9 @@ func AutoLoad(s *eval.State, options Options) error {
 	// Read line by line because some stuff don't serialize well (eg +Inf https://github.com/grol-io/grol/issues/138)
 	// and yet we should try to get back as much as possible instead of aborting.
 	scanner := bufio.NewScanner(f)
+	// A saved value can be (much) longer than the default 64k line limit of the scanner,
+	// which would silently stop the loading at that line.
+	scanner.Buffer(nil, math.MaxInt32)
 	count := 0
 	errorCount := 0
 	var errs []error
@@ -102,6 +106,11 @@ func AutoLoad(s *eval.State, options Options) error {
 		errorCount++
 		errs = append(errs, err)
 		log.Errf("Error loading autoload line %q: %v", line, err)
+	}
+	if err = scanner.Err(); err != nil {
+		errorCount++
+		errs = append(errs, err)
+		log.Errf("Error reading autoload file %s: %v", AutoSaveFile, err)
 	}
 	_, numset := s.UpdateNumSet()
 	log.Infof("Auto loaded %s (%d set) %d lines, %d %s",
